@@ -261,6 +261,22 @@ Definition infer (x : arr) : res cls :=
 Definition run_untyped (w : ver) (a : assoc) (n : nat) (x : arr) : outcome :=
   match infer x with Err e => OStoreErr e | Ok c => run_num w c a n x end.
 
+(* N-d input.  The list carried by [arr] is np.ravel(values) (C order) and [dims] is values.shape: format_values flattens
+   (`if values.ndim > 1: values = np.ravel(values)`) BEFORE the length test, so for one or more dimensions the shape plays
+   no role and the number of entries compared with n_values is the total size.  A 0-d array is not flattened, the NaN
+   substitution works on it, and `len(values)` in format_length raises TypeError. *)
+Definition store_nd (w : ver) (c : cls) (a : assoc) (n : nat) (dims : list nat) (x : arr) : res (vals * raw) :=
+  match dims with
+  | [] => bind (replace_nan c x) (fun _ => Err TypeErr)
+  | _ => store w c a n x
+  end.
+
+Definition run_num_nd (w : ver) (c : cls) (a : assoc) (n : nat) (dims : list nat) (x : arr) : outcome :=
+  match dims with
+  | [] => OStoreErr (match replace_nan c x with Err e => e | Ok _ => TypeErr end)
+  | _ => run_num w c a n x
+  end.
+
 (* what the property expects of an accepted numeric array: the padded input itself *)
 Definition padded {A} (l : list A) (n : nat) (fill : A) : list A :=
   if (length l <? n)%nat then l ++ repeat fill (n - length l) else l.
@@ -519,6 +535,8 @@ Definition toutcome_eqb (a b : toutcome) : bool :=
 (* entry points of the correspondence files *)
 Definition agree_num (w : ver) (c : cls) (a : assoc) (n : nat) (x : arr) (o : outcome) : bool :=
   outcome_eqb (run_num w c a n x) o.
+Definition agree_num_nd (w : ver) (c : cls) (a : assoc) (n : nat) (dims : list nat) (x : arr) (o : outcome) : bool :=
+  outcome_eqb (run_num_nd w c a n dims x) o.
 Definition agree_untyped (w : ver) (a : assoc) (n : nat) (x : arr) (o : outcome) : bool :=
   outcome_eqb (run_untyped w a n x) o.
 Definition agree_text (w : ver) (a : assoc) (n : nat) (x : tin) (o : toutcome) : bool :=
